@@ -2,6 +2,7 @@ import SciVerif.Tie.Task
 import SciVerif.Model.Fmt
 import SciVerif.Tie.C20Sem
 import SciVerif.Model.Components
+import SciVerif.Tie.ProcSem
 /-!
 Line-protocol driver (Tie B): one request per line on stdin (tab separated), one response line.
 It runs the *executable models*, instantiated with the semantics records Tie A regenerated from
@@ -211,6 +212,29 @@ def semOf (s : String) : SortSem :=
   if s == "src" then Tie.sortSem else if s == "timeMap" then .timeMap else if s == "sliceSort" then .sliceSort else .other
 end Rep
 
+/-! ## process main loop: bounded search for an order violation (search support only) -/
+namespace ProcSearch
+open Proc
+
+def bad (s : PSt) : Bool := !(s.forwarded.isPrefixOf s.accepted) || !s.early.isEmpty
+
+partial def dfs (sem : ProcSem) (n : Nat) (s : PSt) (next : Nat) (path : List String) (depth : Nat) : Option (List String) × Nat :=
+  if bad s then (some path.reverse, 1)
+  else if depth == 0 then (none, 1)
+  else
+    (enabled s next n).foldl (fun (acc : Option (List String) × Nat) l =>
+      match acc.1 with
+      | some _ => acc
+      | none =>
+        match step sem s l with
+        | none => acc
+        | some s' =>
+          let nx := match l with | .accept _ => next + 1 | _ => next
+          let nm := match l with | .accept t => s!"accept{t}" | .offer i => s!"offer{i}" | .take i => s!"take{i}"
+          let r := dfs sem n s' nx (nm :: path) (depth - 1)
+          (r.1, acc.2 + r.2)) (none, 1)
+end ProcSearch
+
 def handle (line : String) : String :=
   match line.splitOn "\t" with
   | ["sem"] => semLine
@@ -313,6 +337,12 @@ def handle (line : String) : String :=
   | ["concat", files] =>
     let fs := (Pure.lst files).map fun f => (if f.isEmpty then [] else f.splitOn ",").filterMap String.toNat?
     ",".intercalate ((Comp.concatFiles fs).map toString)
+  | ["proc.sem"] => s!"appendTail={procSem.appendTail};waitHead={procSem.waitHead};dequeueHead={procSem.dequeueHead};forwardOnDequeueOnly={procSem.forwardOnDequeueOnly}"
+  | ["proc.search", n, depth] =>
+    let r := ProcSearch.dfs procSem n.toNat! Proc.init 0 [] depth.toNat!
+    match r.1 with
+    | none => s!"none explored={r.2}"
+    | some p => s!"witness explored={r.2} labels=" ++ ",".intercalate p
   | ["task.c01search"] =>
     match TaskSim.c01Search taskSem with
     | none => "none"
